@@ -12,6 +12,7 @@ nodes created by a call (shared with TreeOps!Rekey): next keys in the order
 """
 import itertools
 import random
+import resource
 import signal
 
 from . import proj, build, core, tlaval
@@ -36,7 +37,8 @@ def _alarm(signum, frame):
 def guarded(fn):
     """-> (raised, value).  Library exceptions are outcomes, never swallowed silently."""
     old = signal.signal(signal.SIGVTALRM, _alarm)
-    signal.setitimer(signal.ITIMER_VIRTUAL, CALL_CPU_LIMIT)
+    # periodic: a library `except:` clause may swallow the first one
+    signal.setitimer(signal.ITIMER_VIRTUAL, CALL_CPU_LIMIT, 2.0)
     try:
         try:
             return "", fn()
@@ -44,11 +46,56 @@ def guarded(fn):
             return "Hang", None
         except RecursionError:
             return "RecursionError", None
+        except MemoryError:
+            return "MemoryError", None
         except Exception as ex:
             return type(ex).__name__, None
     finally:
         signal.setitimer(signal.ITIMER_VIRTUAL, 0)
         signal.signal(signal.SIGVTALRM, old)
+
+
+_LIMITED = [False]
+
+
+def limit_memory():
+    """A call on a damaged object graph may allocate without bound: turn that into MemoryError (an outcome that
+    is logged and judged) instead of an OOM kill of the worker."""
+    if not _LIMITED[0]:
+        _LIMITED[0] = True
+        import multiprocessing
+        if multiprocessing.current_process().name == "MainProcess":
+            return            # never in the process that starts the TLC JVMs
+        try:
+            soft, hard = resource.getrlimit(resource.RLIMIT_AS)
+            cap = 8 << 30
+            if soft == resource.RLIM_INFINITY or soft > cap:
+                resource.setrlimit(resource.RLIMIT_AS, (cap, hard))
+        except Exception:
+            pass
+
+
+def suspect(g):
+    """Should a history go on from this state?  Not a verdict (TLC judges the logged state): calling further
+    mutators on an object graph with shared or dangling nodes can take exponential time and memory.  The
+    trace specification cross-checks the decision (an event with stopped=true whose post-state TLC finds
+    well formed is reported)."""
+    n = g["n"]
+    occ = [0] * (n + 1)
+    for i, ks in enumerate(g["kids"]):
+        for c in ks:
+            if not (0 < c <= n):
+                return True
+            occ[c] += 1
+            if g["par"][c - 1] != i + 1:
+                return True
+    for x in range(1, n + 1):
+        if x == g["seed"]:
+            if occ[x] != 0 or g["par"][x - 1] != 0:
+                return True
+        elif occ[x] != 1:
+            return True
+    return False
 
 
 def real_len(v):
@@ -216,6 +263,7 @@ class World(object):
         if want_api:
             ev["apost"] = self.api_view()
         ev["hasapi"] = bool(want_api)
+        ev["stopped"] = raised in ("Hang", "MemoryError", "RecursionError") or suspect(post)
         self.name_new(post, porder, floor=max(pre["key"]))
         self.cur = (post, porder)
         return ev
@@ -368,6 +416,7 @@ def args_of_model(name, args):
 
 def run_case(case):
     import dendropy
+    limit_memory()
     want_api = case.get("prop") == "C07"
     if case["kind"] == "path":
         w = World(dendropy, case["nested"], case["rooted"], case["ntaxa"], want_api=want_api, encoded=case.get("encoded", False))
@@ -380,6 +429,8 @@ def run_case(case):
                 return [{"action": "Diverged", "at": k, "of": len(path)}]
             if k == len(path) - 1:
                 evs.append(ev)           # the transition under test (its prefix is another case's last edge)
+            elif ev["stopped"]:
+                return [{"action": "Diverged", "at": k, "of": len(path)}]   # reported where that call is the edge under test
         return evs
     return random_history(dendropy, case, want_api)
 
@@ -497,7 +548,7 @@ def random_history(dendropy, case, want_api):
         if ev is None:
             continue
         evs.append(ev)
-        if ev["raised"] == "Hang":
+        if ev["stopped"]:
             break
     return evs
 
